@@ -234,8 +234,60 @@ def units(tier):
                       replay=mk_replay(shape, mask, "bdbd"),
                       desc=f"dd = 0 with signs alternating along the enumeration, shape {shape_name(shape, mask)}, every cell and every target cell", **common))
     U += value_units(tier)
+    U += iterator_units(tier)
     U += spec_sanity_units()
     U += comparator_units()
+    return U
+
+
+def iterator_units(tier):
+    """Top_dimensional_cells_iterator / Vertices_iterator (base and periodic class): from begin, operator++ visits every
+    top cell / vertex of the grid exactly once, in increasing bitmap position, and reaches end() right after the last
+    one - so the constructors put the input values on the right cells."""
+    U = []
+    its = [("base", B, "Top_dimensional_cells_iterator", "top_dimensional_cells_iterator_end", True, None),
+           ("base", B, "Vertices_iterator", "vertices_iterator_end", False, None),
+           ("per", PB, "Vertices_iterator", "vertices_iterator_end", False, "mask")]
+    shapes_b = [((3,), None), ((3, 2), None), ((2, 1, 2), None)] + ([((2, 2, 2), None), ((1, 1, 1, 1), None)] if tier == "thorough" else [])
+    shapes_p = [((3,), (True,)), ((3, 4), (True, False)), ((4, 3), (False, True)), ((3, 3), (False, False))] + ([((3, 2, 3), (True, False, True))] if tier == "thorough" else [])
+    ISUBS = [(r"this->b->dimension\(\)", "sizes.n", 0), (r"this->dimension\(\)", "sizes.n", 0), (r"this->b->", "", 0), (r"this->counter", "counter", 0),
+             (r"return \*this;", "return;", 0)] + vec_subs()
+    for cname, path, icls, endfn, top, pm in its:
+        for shape, mask in (shapes_p if pm else shapes_b):
+            periodic = mask is not None
+            radices = [(s if top else (s + (0 if (periodic and mask[i]) else 1))) for i, s in enumerate(shape)]
+            count = 1
+            for r_ in radices:
+                count *= r_
+            G = GHOST + f"""
+vp_vec_sz counter, g_end;
+#define NIT {count}
+static const unsigned g_radix[4] = {{{", ".join(str(r_) for r_ in radices + [1] * (4 - len(radices)))}}};
+"""
+            f_inc = Fn(path, rf"{icls} operator\+\+\(\)", "it_increment", "", within=rf"class {icls} \{{", sig_subs=[(rf"^{icls} operator\+\+", "void it_increment")], subs=ISUBS)
+            f_idx = Fn(path, r"std::size_t compute_index_in_bitmap\(\) const", "it_index", "", within=rf"class {icls} \{{", sig_subs=SIG_SUBS, subs=ISUBS)
+            f_end = Fn(path, rf"{icls} {endfn}\(\)", "it_end", "", sig_subs=[(rf"^{icls} ", "void ")],
+                       subs=[(rf"{icls} a\(this\);", "g_end.n = sizes.n; for (size_t z_ = 0; z_ < VCAP; z_++) g_end.a[z_] = 0;"), (r"a\.counter\[", "g_end.a[", 0), (r"return a;", "return;")] + ISUBS)
+            lem = """
+  counter.n = D; for (size_t z = 0; z < VCAP; z++) counter.a[z] = 0;          /* begin(): a zero counter */
+  it_end();
+  for (unsigned t = 0; t < NIT; t++) {
+    bool at_end = true; for (unsigned i = 0; i < DMAX; i++) if (i < D) at_end = at_end && counter.a[i] == g_end.a[i];
+    __CPROVER_assert(!at_end, "end() is not reached before every cell has been visited");
+    size_t want = 0; unsigned q = t;
+    for (unsigned i = 0; i < DMAX; i++) if (i < D) { unsigned c = q % g_radix[i]; q /= g_radix[i]; want += (size_t)(2 * c + """ + ("1" if top else "0") + """) * x_mult(i); }
+    __CPROVER_assert(it_index() == want, "the t-th visited cell is the t-th input cell in increasing bitmap position");
+    it_increment();
+  }
+  { bool at_end = true; for (unsigned i = 0; i < DMAX; i++) if (i < D) at_end = at_end && counter.a[i] == g_end.a[i];
+    __CPROVER_assert(at_end, "end() is reached right after the last cell"); }
+"""
+            nm = ("per." if periodic else "base.") + shape_name(shape, mask)
+            Fs = fns(periodic)
+            U.append(Unit(f"{nm}.{icls}", "C13", [Fs["set_up_containers"], f_inc, f_idx, f_end], no_enforce=True, includes=["c13_glue.h"], defines=shape_defs(shape, mask),
+                          globals_=G, route="B", bound=f"grid shape {shape}" + (f", periodic mask {mask}" if periodic else ""), unwind=max(count + 2, 10), object_bits=10,
+                          inputs=[], harness=H("", post=lem),
+                          desc=f"{icls} ({'periodic' if periodic else 'base'} class) on shape {shape_name(shape, mask)}: begin / ++ / end enumerate every {'top cell' if top else 'vertex'} exactly once in bitmap order"))
     return U
 
 
